@@ -13,6 +13,9 @@ WIRE_NOTE = ("Trusted base: RefDecode / Encode in spec/Wire.tla as the reading o
 CODEC_NOTE = ("Trusted base: the transcriptions of MPD's util/Tokenizer.cxx, song/Filter.cxx and of the command reference in spec/Tokenizer.tla, FilterGrammar.tla, Commands.tla "
               "(written from knowledge of MPD; no MPD binary or source is available in the sandbox). The specification models the PEER, not the function under test, so any output the peer reads correctly is accepted.")
 
+TYPED_NOTE = ("Trusted base: spec/Typed.tla (reply semantics written from the MPD protocol reference) and TLC. The Rust harness only builds the value through the public API and projects it to JSON; "
+              "states/transitions in the evidence count records evaluated by TLC, not an abstract state space.")
+
 CHECKS = {
  "C01": dict(level="model_checking", design_ref="DESIGN.md 6 (C01), 3.3",
    text="Loop.tla (client loop as coded || MPD server || pipe || callers || timer) is model-checked exhaustively in a small scope against the C01 monitors of World.tla (reply identity, per-caller order at the server, failed-list shape, cancel non-interference); environment schedules generated from the model by TLC plus seeded random ones are replayed into the real mpd_client::Client and every recorded trace is validated by TLC against the same monitors (SessionTrace.tla).",
@@ -50,6 +53,24 @@ CHECKS = {
  "C15": dict(level="model_checking", design_ref="DESIGN.md 6 (C15), Appendix B",
    text="Commands.tla is the expectation table written from the MPD protocol reference (constructor path -> documented word and argument meanings). Every constructor/builder path x boundary parameter pools is constructed by the real API; TLC tokenizes the request and checks that the arguments DENOTE the same values: ranges as position sets with saturation at MAX, durations within millisecond rounding, clamped volume, whole-second crossfade, sort before window, each string parameter one token in position. Commands of definitions.rs without a table row are reported as a coverage gap.",
    technique="TLC evaluation of a TLA+ command table + MPD tokenizer on real command renderings (table-driven)", note=CODEC_NOTE),
+ "C12": dict(level="model_checking", design_ref="DESIGN.md 6 (C12), 7.1",
+   text="Every predefined command with a typed response and typed lists (tuple arity 1..8, Vec) are fed replies built from a grammar that deliberately leaves the expected shape (expected / unexpected / other-case field names, boundary pools 2^64-1, 2^64, 1e400, -0, NaN, inf, ' 1', empty, '='-less stickers, any frame count, optional payload) through the real parser and the real Command::response / CommandList::responses under catch_unwind, every public accessor of the value is read; two builds (default, chrono). A panic is a violation; where Typed.tla defines the value it is compared as well.",
+   technique="TLC evaluation of the TLA+ reply semantics (Typed.tla) on real typed conversions; exploration of off-shape replies for totality", note=TYPED_NOTE),
+ "C13": dict(level="model_checking", design_ref="DESIGN.md 6 (C13)",
+   text="Framing: raw lists of N = 0..9, 50, 200 commands assembled via new/command/add/extend, the bytes of the real send_list compared by TLC with begin + the N rendered command lines + end (bare command for N = 1). Pairing: typed tuples of arity 1..8 over four command kinds with distinguishable replies and vectors of 0..9 commands; TLC checks that the i-th typed value is what Typed.tla reads from the frame of the i-th command, that an empty typed list writes nothing and yields an empty result.",
+   technique="TLC evaluation of list framing and positional pairing (TLA+) on real CommandList rendering / responses()", note=TYPED_NOTE),
+ "C14": dict(level="model_checking", design_ref="DESIGN.md 6 (C14)",
+   text="Typed.tla defines what a song listing means (one song per file entry, attributes and tags between its file line and the next entry, directory / playlist entries with their own Last-Modified skipped, duration over legacy Time in either order, tags per canonical name in wire order). Listings with random subsets / orders / repetitions and boundary values go through the real parser and Queue, QueueRange, CurrentSong, Find, GetPlaylist, ListAllIn; TLC compares the projected songs with the specification's reading of the recorded lines; out-of-domain attribute values must yield an error.",
+   technique="TLC evaluation of the TLA+ listing semantics (Typed.tla) on real typed conversions", note=TYPED_NOTE),
+ "C16": dict(level="model_checking", design_ref="DESIGN.md 6 (C16)",
+   text="As C14 for status (optional-field subsets, shuffled order, enum spellings, boundary numbers), stats, count (plain / grouped), list (plain / grouped by 1-2 tags, repeated and changing keys), listplaylists, sticker get/list/find (values containing '='), channels, messages, tag types, update / rescan, replay gain status, addid, album art: exact values, None iff omitted, out-of-domain value => error (Typed.tla, from the MPD protocol reference).",
+   technique="TLC evaluation of the TLA+ reply semantics (Typed.tla) on real typed conversions", note=TYPED_NOTE),
+ "C19": dict(level="model_checking", design_ref="DESIGN.md 6 (C19), 7.1 F-C19-1",
+   text="Frame.tla is the abstract ordered multimap (+ optional payload); FrameGen.tla lets TLC explore it under every operation (find, get, take_binary, fields_len, is_empty, has_binary, binary, next/next_back patterns) on every small frame and emits one witness operation path per explored transition; each is applied to a real Frame built by the real parser and TLC replays the recorded results through the model step by step (FrameTrace.tla); responses: frames-then-error with exact size hints from either end; deep case (2*10^5 removed fields, 2 MiB stack, child process) for F-C19-1.",
+   technique="TLA+ model exploration (TLC) of the abstract frame, one implementation test per model transition, TLC replay of recorded results", note="Trusted base: Frame.tla (the multimap is small enough to read in full); frames can only be built through the real parser."),
+ "C20": dict(level="model_checking", design_ref="DESIGN.md 6 (C20)",
+   text="Finite and exhaustive in the thorough tier: Names.tla holds the documented tag and subsystem names; NamesGen.tla enumerates candidate strings (every name in 4 casings, all strings of length <= 3 over a class alphabet); the harness parses each and compares EVERY pair of values (named, parsed, catch-all) with ==, cmp, hash, HashMap / BTreeMap / HashSet; TLC checks each record against equality / order of protocol names and the parse rules.",
+   technique="TLC evaluation of the TLA+ name tables and parse rules on real Tag / Subsystem behaviour (exhaustive pairs)", note="Trusted base: the name tables copied from the MPD documentation into spec/Names.tla."),
 }
 
 def main():
